@@ -130,7 +130,7 @@ func TestPropEnospc(t *testing.T) {
 	defer unmountTiny(mnt)
 	t.Cleanup(func() { unmountTiny(mnt) })
 
-	stats.Check(t, stats.Budget{Quick: 40, Thorough: 400}, enospcRule,
+	stats.Check(t, stats.Budget{Quick: 30, Thorough: 400}, enospcRule,
 		func(rt *rapid.T, c *stats.Case) {
 			c.Label("enospc_injection: available")
 			ents, _ := os.ReadDir(mnt)
